@@ -48,6 +48,9 @@ def cases(tier, seed):
     for n in range(1, 5):
         for nm in xf_names(n, n, hermitian=True):
             out.append({"key": f"moore/xf/n={n}/{nm}", "grp": "moore", "n": n, "xf": nm})
+    # documented options: explicit rank tolerance (incl. 0 in several spellings), null-space rtol on both sides and through every wrapper
+    for m, n in ((3, 3), (4, 4), (5, 4), (4, 5), (2, 6), (6, 2)):
+        out.append({"key": f"opts/{m}x{n}", "grp": "opts", "m": m, "n": n})
     L = 3 if tier == "quick" else 5
     for n in range(1, L + 1):
         for a, b in itertools.product(range(6), repeat=2):
@@ -175,6 +178,59 @@ def run_case(case, seed):
             fails.append(fail("input_unchanged", "argument modified", **tags))
         return {"key": case["key"], "fails": fails, "nontrivial": r > 0, "digest": digest(A, "rank"),
                 "path": f"r<{'p' if r < min(m, n) else '=p'},nullR={min(n - r, 2)},nullL={min(m - r, 2)},mult={min(info['max_mult'], 2)}", "obs": [f["clause"] for f in fails]}
+    if grp == "opts":
+        m, n = case["m"], case["n"]
+        p = min(m, n)
+        vals = [1.0, 0.5, 2.0 ** -20, 2.0 ** -46][:p] if p > 2 else [1.0, 2.0 ** -20][:p]
+        A, Uq, Vq = SG.build(m, n, vals, "hh", "hh", fill, variant=7)
+        Aq = G.to_quat(A)
+        before = Aq.tobytes()
+        tags = {"grp": "opts", "m": m, "n": n}
+        evals = 0
+        for tname, tol in (("None", None), ("0", 0), ("0.0", 0.0), ("np.float64(0)", np.float64(0.0)), ("1e-30", 1e-30), ("2^-30", 2.0 ** -30), ("2^-10", 2.0 ** -10), ("0.75", 0.75), ("2.0", 2.0)):
+            exp = sum(1 for v in vals if v > (tol if tol is not None else np.finfo(float).eps * max(m, n) * vals[0]))
+            for nmA, Aarg, in (("A", Aq), ("A^H", G.to_quat(O.qH(A)))):
+                ok, rk = call(u.rank, Aarg, tol)
+                evals += 1
+                if not ok or rk != exp:
+                    fails.append(fail("rank_tolerance_option", f"rank({nmA}, tol={tname}) = {rk}, singular values {vals} -> expected {exp}", fn="rank", tol=tname, **tags))
+        # exact singular values (monomial factors), one of them positive but below the default threshold
+        if p >= 2:
+            mv = ([1.0, 0.5, 0.25][: p - 1]) + [2.0 ** -60]
+            Am, _, _ = SG.build(m, n, mv, "mono", "mono", fill, variant=3)
+            for tname, tol in (("None", None), ("0", 0), ("0.0", 0.0), ("np.float64(0)", np.float64(0.0)), ("2^-70", 2.0 ** -70), ("2^-50", 2.0 ** -50)):
+                exp = sum(1 for v in mv if v > (tol if tol is not None else np.finfo(float).eps * max(m, n) * mv[0]))
+                ok, rk = call(u.rank, G.to_quat(Am), tol)
+                evals += 1
+                if not ok or rk != exp:
+                    fails.append(fail("rank_tolerance_option", f"rank(monomial, tol={tname}) = {rk}, exact singular values {mv} -> expected {exp}", fn="rank", tol=tname, **tags))
+        for rname, rtol in (("default", None), ("2^-10", 2.0 ** -10), ("2^-30", 2.0 ** -30), ("1e-15", 1e-15), ("0.75", 0.75)):
+            thr = (1e-10 if rtol is None else rtol) * vals[0]
+            r_exp = sum(1 for v in vals if v > thr)
+            dropped = max([v for v in vals if v <= thr], default=0.0)
+            for side, dim in (("right", n), ("left", m)):
+                calls = [("quat_null_space", lambda: u.quat_null_space(Aq, side) if rtol is None else u.quat_null_space(Aq, side, rtol)),
+                         ("quat_null_space_kw", lambda: u.quat_null_space(Aq, side=side) if rtol is None else u.quat_null_space(Aq, side=side, rtol=rtol)),
+                         ("quat_kernel", lambda: u.quat_kernel(Aq, side) if rtol is None else u.quat_kernel(Aq, side, rtol)),
+                         ("wrapper", lambda: (u.quat_null_right if side == "right" else u.quat_null_left)(Aq) if rtol is None else (u.quat_null_right if side == "right" else u.quat_null_left)(Aq, rtol))]
+                for cname, f in calls:
+                    ok, N = call(f)
+                    evals += 1
+                    t2 = {**tags, "side": side, "rtol": rname, "via": cname}
+                    if not ok:
+                        fails.append(fail("raised", f"{cname}({side}, rtol={rname}): {N}", fn="null_opts", **t2))
+                        continue
+                    Nf = G.from_quat(N) if N.size else np.zeros((dim, 0, 4))
+                    if Nf.shape[:2] != (dim, dim - r_exp):
+                        fails.append(fail("null_rtol_option", f"{cname}({side}, rtol={rname}): shape {Nf.shape[:2]}, singular values {vals} -> expected {(dim, dim - r_exp)}", fn="null_opts", **t2))
+                        continue
+                    if dim - r_exp > 0:
+                        prod = O.qmatmul(A, Nf) if side == "right" else O.qmatmul(O.qH(A), Nf)
+                        if O.fro(prod) > (dropped * (1 + 1e-6) + O.budget(1.0, dims=16 * max(m, n))) * max(1.0, O.fro(Nf)):
+                            fails.append(fail("null_annihilated", f"{cname}({side}, rtol={rname}): ||A N||_F = {O.fro(prod):.3e} > largest dropped singular value {dropped:.3e}", fn="null_opts", **t2))
+        if Aq.tobytes() != before:
+            fails.append(fail("input_unchanged", "argument modified", **tags))
+        return {"key": case["key"], "fails": fails, "nontrivial": True, "digest": digest(A, "opts"), "path": "opts", "evals": evals, "obs": [f["clause"] for f in fails]}
     if grp == "laws":
         n = case["n"]
         Gm = invertible(case["a"], n, fill)
